@@ -208,7 +208,7 @@ def initialVars : Vars := [("_configfile", ["default.cfg"]), ("I_b", ["f:3e-3"])
 
 /-- the event skeleton of `parse` this model was written for -/
 def expectedSkeleton : List String :=
-  ["store_cli:_commandlineopts", "notify", "ifcount:help", "return:false", "ifcount:copyright",
+  ["store_cli:_commandlineopts", "no_positional", "notify", "ifcount:help", "return:false", "ifcount:copyright",
    "return:false", "ifcount:version", "return:false", "ifcount:buildinfo", "return:false",
    "cfgeq:/dev/null", "return:false", "store_cfg:_cfgfileopts", "aliasloop",
    "aliascond:given(first)&&defaulted(second)", "aliascopy:second<-first", "notify",
